@@ -220,7 +220,7 @@ where
                 }
             }
             chrom += 1;
-            seq.push(seqrec.seq().to_vec());
+            seq.push(seqrec.seq().to_ascii_uppercase());
         }
         if split_kmer_pos.is_empty() {
             panic!("{filename} has no valid sequence");
